@@ -122,14 +122,17 @@ Lemma flin_le_step_isafe : forall cs vs k i coeff v, isafe (flin_le_step cs vs k
 Proof. intros cs vs k i coeff v c c' H. unfold flin_le_step in H. isafe_cases; auto. Qed.
 Lemma flin_le_helper_step_isafe : forall cs vs k i coeff v, isafe (flin_le_helper_step cs vs k i coeff v).
 Proof. intros cs vs k i coeff v c c' H. unfold flin_le_helper_step in H. isafe_cases; auto. Qed.
-Lemma flin_eq_step_isafe : forall unb cs vs k i coeff v, isafe (flin_eq_step unb cs vs k i coeff v).
-Proof. intros unb cs vs k i coeff v c c' H. unfold flin_eq_step in H.
+Lemma flin_eq_step_gen_isafe : forall w unb cs vs k i coeff v, isafe (flin_eq_step_gen w unb cs vs k i coeff v).
+Proof. intros w unb cs vs k i coeff v c c' H. unfold flin_eq_step_gen in H.
   destruct (flt (fabs coeff) c_zero_coeff). { inversion H; apply store_ile_refl. }
   destruct (unb && others_unbounded vs (fst c) i 0). { inversion H; apply store_ile_refl. }
   repeat match type of H with (let '(_, _) := ?p in _) = _ => destruct p end.
   match type of H with (if ?b then _ else _) = _ => destruct b end. { inversion H; apply store_ile_refl. }
   match type of H with match ?x with _ => _ end = _ => destruct x as [c1|] eqn:E1 end; [|discriminate].
   eapply store_ile_trans. eapply xset_max_isafe; eauto. eapply xset_min_isafe; eauto. Qed.
+
+Lemma flin_eq_step_isafe : forall unb cs vs k i coeff v, isafe (flin_eq_step unb cs vs k i coeff v).
+Proof. intros. apply flin_eq_step_gen_isafe. Qed.
 
 Lemma prune_flin_le_isafe : forall cs vs k, isafe (prune_flin_le cs vs k).
 Proof. intros. apply flin_loop_isafe. intros; apply flin_le_step_isafe. Qed.
@@ -141,6 +144,9 @@ Lemma exclude_value_isafe : forall v f, isafe (exclude_value v f).
 Proof. intros v f c c' H. unfold exclude_value in H. isafe_cases; auto. Qed.
 Lemma prune_flin_ne_isafe : forall cs vs k, isafe (prune_flin_ne cs vs k).
 Proof. intros cs vs k c c' H. unfold prune_flin_ne in H.
+  destruct (assigned_sum cs vs (fst c) c_zero) as [sm|].
+  { destruct (flt (fabs (fsub sm k)) c_ne_eq); [discriminate|]. inversion H; apply store_ile_refl. }
+  unfold prune_flin_ne_prefix in H.
   destruct (ne_scan_loop cs vs (fst c) 0 None c_zero) as [|[idx|] fs].
   - inversion H; apply store_ile_refl.
   - destruct (flt (fabs (nth idx cs c_zero)) c_zero_coeff).
@@ -449,8 +455,23 @@ Proof. intros c v d coeff k H. unfold prune_flin_le_prefix. simpl. unfold flin_l
 (* -- (c) FloatLinNe does nothing while two of its variables are not "fixed" in ITS sense (|max - min| < 1e-12) ... *)
 Theorem flin_ne_two_unfixed_is_noop : forall c c0 c1 v0 v1 k,
   ne_fixed_val (fst c) v0 = None -> ne_fixed_val (fst c) v1 = None ->
-  prune_flin_ne [c0; c1] [v0; v1] k c = Some c.
-Proof. intros c c0 c1 v0 v1 k H0 H1. unfold prune_flin_ne. simpl. rewrite H0, H1. reflexivity. Qed.
+  prune_flin_ne_prefix [c0; c1] [v0; v1] k c = Some c.
+Proof. intros c c0 c1 v0 v1 k H0 H1. unfold prune_flin_ne_prefix. simpl. rewrite H0, H1. reflexivity. Qed.
+
+(* AFTER the repair: at a leaf (every variable of the constraint assigned in the search's sense) FloatLinNe decides the constraint
+   on the reported values and changes nothing: it fails iff the f64 sum of coeff * reported value is within 1e-12 of k *)
+Fixpoint reported_sum (cs : list f64) (vs : list nat) (s : fstore) (acc : f64) : f64 :=
+  match cs, vs with
+  | coeff :: cs', v :: vs' => reported_sum cs' vs' s (fadd acc (fmul coeff (as_f (var_value (fget s v)))))
+  | _, _ => acc
+  end.
+Lemma assigned_sum_reported : forall cs vs s acc, Forall (fun v => var_assigned (fget s v) = true) vs ->
+  assigned_sum cs vs s acc = Some (reported_sum cs vs s acc).
+Proof. induction cs as [|a cs IH]; intros vs s acc H; destruct vs as [|v vs]; simpl; auto.
+  inversion H; subst. rewrite H2. apply IH; auto. Qed.
+Theorem flin_ne_decides_leaf : forall cs vs k c, Forall (fun v => var_assigned (fget (fst c) v) = true) vs ->
+  prune_flin_ne cs vs k c = if flt (fabs (fsub (reported_sum cs vs (fst c) c_zero) k)) c_ne_eq then None else Some c.
+Proof. intros cs vs k c H. unfold prune_flin_ne. rewrite (assigned_sum_reported cs vs (fst c) c_zero H). reflexivity. Qed.
 
 (* closed witnesses, observed through bit patterns *)
 Definition obs_var (x : fvar) : list Z :=
@@ -468,9 +489,16 @@ Proof. vm_compute. split; reflexivity. Qed.
    solution is x = y = 0 *)
 Definition w_ne_iv : fint := mkfi (of_bits 0) (of_bits 0x3eb0c6f7a0b5ed8d) (of_bits 0x3eb0c6f7a0b5ed8d).
 Definition w_ne_store : fstore := [VF w_ne_iv; VF w_ne_iv].
+Definition w_ne_iv2 : fint := mkfi (of_bits 0x3eb0c6f7a0b5ed8d) (of_bits 0x3ec0c6f7a0b5ed8d) (of_bits 0x3eb0c6f7a0b5ed8d).
+Lemma float_ne_repaired_ok :
+  prune_flin_ne [of_bits 0x3ff0000000000000; of_bits 0xbff0000000000000] [0%nat; 1%nat] (of_bits 0) (w_ne_store, []) = None /\
+  fall_assigned [VF w_ne_iv; VF w_ne_iv2] = true /\
+  obs_ctx (prune_flin_ne [of_bits 0x3ff0000000000000; of_bits 0xbff0000000000000] [0%nat; 1%nat] (of_bits 0) ([VF w_ne_iv; VF w_ne_iv2], []))
+    = obs_ctx (Some ([VF w_ne_iv; VF w_ne_iv2], [])).
+Proof. vm_compute. repeat split; reflexivity. Qed.
 Lemma float_ne_refuted_ok :
   fall_assigned w_ne_store = true /\
-  obs_ctx (prune_flin_ne [of_bits 0x3ff0000000000000; of_bits 0xbff0000000000000] [0%nat; 1%nat] (of_bits 0) (w_ne_store, [])) = obs_ctx (Some (w_ne_store, [])) /\
+  obs_ctx (prune_flin_ne_prefix [of_bits 0x3ff0000000000000; of_bits 0xbff0000000000000] [0%nat; 1%nat] (of_bits 0) (w_ne_store, [])) = obs_ctx (Some (w_ne_store, [])) /\
   map (fun b => match b with VlF x => to_bits x | VlI z => z end) (fsolution w_ne_store) = [0; 0].
 Proof. vm_compute. repeat split; reflexivity. Qed.
 
@@ -525,6 +553,18 @@ Lemma strict_int_const_ok :
   prune_flt (FVar 0) (FConst (VlF (of_bits 0x7ff8000000000000))) (w_six, []) = None /\
   prune_flt (FVar 0) (FConst (VlF (of_bits 0x7ff0000000000000))) (w_six, []) = Some (w_six, []).
 Proof. vm_compute. repeat split; reflexivity. Qed.
+
+(* -- (e1) FloatLinEq over an integer and a float variable: 3*i + 0.75*x = 1.40625 at step 0.1.  x = 1.875 is quantised to 1.9, the
+      residual for i is -0.00625: BEFORE the repair (prune_flin_eq_prefix) ceil / floor of it invert the bounds of i and the leaf
+      x = 1.9, i = 0 fails (so does every other: NoSolution); AFTER (prune_flin_eq: one step of x, weighted, as slack for i) the
+      leaf is accepted unchanged *)
+Definition w_eqmix_store : fstore :=
+  [VF (mkfi (of_bits 0x3ffe666666666667) (of_bits 0x3ffe666666666667) (of_bits 0x3fb999999999999a)); VI [0]].
+Lemma floatlineq_mixed_ok :
+  prune_flin_eq_prefix [of_bits 0x4008000000000000; of_bits 0x3fe8000000000000] [1%nat; 0%nat] (of_bits 0x3ff6800000000000) (w_eqmix_store, []) = None /\
+  obs_ctx (prune_flin_eq [of_bits 0x4008000000000000; of_bits 0x3fe8000000000000] [1%nat; 0%nat] (of_bits 0x3ff6800000000000) (w_eqmix_store, []))
+    = obs_ctx (Some (w_eqmix_store, [])).
+Proof. vm_compute. split; reflexivity. Qed.
 
 (* -- (e) strict comparison of a float variable with an integer literal: x > 2 is lowered (LinearInt, op Gt) to IntLinLe([-1],[x],-3),
       i.e. x >= 3: on x in [0, 2.5] the space fails although 2.25 satisfies x > 2 with a margin of 25 steps of 0.01 *)
